@@ -30,7 +30,7 @@ func init() { register(c13{}) }
 func (c13) Meta() core.Meta {
 	return core.Meta{
 		ID: "C13", Level: "fault_enumeration",
-		Rule:        "case i = f(seed,i): a stream of 1..5 generated documents (XML through the C01 generator, or JSON objects whose keys/strings contain braces, quotes, backslashes, trailing escaped backslashes; compact or indented) with arbitrary inter-document whitespace, and one reader API family (XML / XML-Raw / Seq / Seq-Raw / JSON / JSON-Raw readers in a loop, the four bulk handlers incl. stop-after-k, x2j-wrapper ToMap loop and XmlMsgsFromReader, and bufio/bytes.Buffer sources). For that stream the single-fault delivery sweep is enumerated completely: for every byte position p one schedule with 1..7 consecutive (0,nil) reads before byte p, x both EOF modes (last byte together with io.EOF / separate (0,io.EOF)), plus the fault-free baselines and three long stalls (90..400 consecutive empty reads at the first, last and a random byte); thorough adds random multi-fault schedules and multi-byte chunking. Offline checker over the recorded log: Maps in order == direct decode of each document then io.EOF; reader offset at each return within [doc end, next doc start] (no over-read); Raw == bytes consumed since the previous return; handlers called exactly once per document in order and never after returning false; number of Read calls <= bytes + injected empty reads + 2*(documents+1) + 4. Non-trivial: the schedule injects a fault or the stream has >=2 documents; distinct by hash(stream, api, schedule).",
+		Rule:        "case i = f(seed,i): a stream of 1..5 generated documents (XML through the C01 generator, or JSON objects whose keys/strings contain braces, quotes, backslashes, trailing escaped backslashes; compact or indented) with arbitrary inter-document whitespace, and one reader API family (XML / XML-Raw / Seq / Seq-Raw / JSON / JSON-Raw readers in a loop, the four bulk handlers incl. stop-after-k, x2j-wrapper ToMap loop and XmlMsgsFromReader, and bufio/bytes.Buffer sources). For that stream the single-fault delivery sweep is enumerated completely: for every byte position p one schedule with 1..7 consecutive (0,nil) reads before byte p, x both EOF modes (last byte together with io.EOF / separate (0,io.EOF)), plus the fault-free baselines and three long stalls (90..400 consecutive empty reads at the first, last and a random byte); thorough adds random multi-fault schedules and multi-byte chunking. Offline checker over the recorded log: Maps in order == direct decode of each document then io.EOF; reader offset at each return within [doc end, next doc start] (no over-read); Raw == bytes consumed since the previous return; handlers called exactly once per document in order and never after returning false; number of Read calls <= bytes + injected empty reads + 2*(documents+1) + 4. JSON streams of the plain sources also carry objects without members as optional deliveries (every document after one must still arrive). Non-trivial: the schedule injects a fault or the stream has >=2 documents; distinct by hash(stream, api, schedule).",
 		Assumptions: []string{"the io.Reader contract: (0,nil) and (n>0,io.EOF) are legal", "expected Maps are the library's own direct decode of each document's bytes (the property is stated as that equivalence)", "with io.ByteReader sources (bufio, bytes.Buffer) over-reading of the underlying reader is the caller's choice and is not asserted"},
 		Anchors:     []string{"NewMapXmlReader", "NewMapXmlReaderRaw", "NewMapXmlSeqReader", "NewMapXmlSeqReaderRaw", "NewMapJsonReader", "NewMapJsonReaderRaw", "getJson", "NewMapsFromXmlFile", "NewMapsFromXmlFileRaw", "NewMapsFromJsonFile", "HandleXmlReader", "HandleXmlReaderRaw", "HandleJsonReader", "HandleJsonReaderRaw", "*teeReader.ReadByte", "*byteReader.ReadByte", "x2j-wrapper.XmlMsgsFromReader", "x2j-wrapper.ToMap"},
 		Floors:      map[string]int64{"schedule:eof-with-data": 5000, "schedule:empty-read-injected": 10000, "stream:multi-doc": 300, "json:trailing-escaped-backslash": 20, "json:brace-in-string": 50, "handler:stopped-early": 50, "returns-checked": 30000},
